@@ -382,6 +382,23 @@ m("c01-element-dropped", "src/verifier.rs",
   "                    if let Some(disclosed_claim) = disclosed_claim {\n                        claims.push(disclosed_claim);\n                    }",
   "                    if let Some(disclosed_claim) = disclosed_claim {\n                        if claims.len() < 512 { claims.push(disclosed_claim); }\n                    }", {"C01": "element-pushed"})
 
+# ---------------------------------------------------------------- disclosure text model (sa/dtext.py) and the structural escaper check (sa/escaper.py)
+m("dt-name-unquoted", "src/disclosure.rs", "format!(r#\"[\"{}\", {}, {}]\"#, salt, escape_json(key), value_str)", "format!(r#\"[\"{}\", \"{}\", {}]\"#, salt, key, value_str)",
+  {"C01": "text-format", "C05": "text-format"}, "the member name is put between quotes by hand instead of JSON-encoded")
+m("dt-name-escaped-first", "src/disclosure.rs", "    Value::String(String::from(s)).to_string()", "    Value::String(escape_unicode_chars(s)).to_string()",
+  {"C01": "name-encoding", "C05": "name-encoding"}, "the escaper is applied before JSON encoding: the backslashes it produces are escaped again")
+m("dt-missing-value", "src/disclosure.rs", "format!(r#\"[\"{}\", {}]\"#, salt, value_str)", "format!(r#\"[\"{}\"]\"#, salt)",
+  {"C01": "text-form"}, "the unnamed form loses its value")
+m("dt-swapped", "src/disclosure.rs", "format!(r#\"[\"{}\", {}, {}]\"#, salt, escape_json(key), value_str)", "format!(r#\"[\"{}\", {}, {}]\"#, salt, value_str, escape_json(key))",
+  {"C01": "text-format"}, "name and value exchanged")
+m("esc-upper-ascii", "src/disclosure.rs", "        if c.is_ascii() {\n            result.push(c);\n", "        if c.is_ascii() {\n            result.push(c.to_ascii_uppercase());\n",
+  {"C01": "value-escaper"}, "the escaper changes ASCII characters")
+m("esc-stateful", "src/disclosure.rs", "    let mut result = String::new();\n\n    for c in s.chars() {\n        if c.is_ascii() {\n            result.push(c);\n",
+  "    let mut result = String::new();\n    let mut prev = ' ';\n\n    for c in s.chars() {\n        if c.is_ascii() {\n            if prev != '\\\\' { result.push(c); }\n            prev = c;\n",
+  {"C01": "value-escaper"}, "the escaper drops the character after a backslash: stateful on ASCII input")
+m("esc-suffix", "src/disclosure.rs", "    result\n}\n\nfn escape_json", "    result.push(' ');\n    result\n}\n\nfn escape_json",
+  {"C01": "value-escaper"}, "the escaper appends a character after the loop")
+
 # ---------------------------------------------------------------- neutral refactors: every check must stay silent
 N = []
 
